@@ -32,7 +32,7 @@ PROPS["C18"] = dict(
     proof_files=["Proofs/ReloadId.v", "Proofs/ReloadIdAccept.v", "Tie/ReloadId.v", "Props/C18.v"],
     proof_targets=["Props/C18.vo"],
     props_module="Props.C18",
-    theorems=["C18_update_code_is_max", "C18_code_ids_compare_as_numbers", "C18_update_true_iff_grew", "C18_never_is_least",
+    theorems=["C18_update_code_is_max", "C18_code_ids_compare_as_numbers", "C18_code_ids_are_whole_words", "C18_update_true_iff_grew", "C18_never_is_least",
               "C18_atomic_code_is_model", "C18_one_atomic_access_per_method", "C18_final_is_max",
               "C18_cell_monotone", "C18_one_true_per_growth",
               "C18_update_answer_is_growth_of_that_step", "C18_accept_complete"],
@@ -307,17 +307,18 @@ PROPS["C10"] = dict(
                "behaviour as far as sysdiff explores.",
     level_note="Trusted: Coq kernel+VM, rs2v, the harness universe and hooks (pass order, settle barrier); "
                "Handle::get's reference validity is the Rust-level consequence (not modelled).",
-    gen=["Entry", "Anycache", "Flags", "Dirs", "CacheMap", "LocalMap", "Private"],
+    gen=["Entry", "Anycache", "Flags", "Dirs", "CacheMap", "LocalMap", "Private", "HotReloading"],
     model_files=SYS_MODEL_FILES,
     model_targets=["Corr/SysCheck.vo"],
-    proof_files=["Proofs/SysGrows.v", "Proofs/SysStatic.v", "Proofs/SysGraph.v", "Tie/Static.v", "Tie/Dirs.v", "Tie/Maps.v",
+    proof_files=["Proofs/SysGrows.v", "Proofs/SysStatic.v", "Proofs/SysGraph.v", "Tie/Static.v", "Tie/Dirs.v", "Tie/Maps.v", "Tie/Answers.v",
                  "Props/C10.v"],
     proof_targets=["Props/C10.vo"],
     props_module="Props.C10",
     theorems=["C10_code_decides_reloadability_as_modelled", "C10_no_reloader_or_opted_out_is_static",
               "C10_get_or_insert_is_static", "C10_static_never_written",
               "C10_static_never_written_in_any_history", "C10_flag_is_forwarded",
-              "C10_reloader_is_fixed_at_construction", "C10_code_clear_neither_makes_nor_drops_a_reloader"],
+              "C10_reloader_is_fixed_at_construction", "C10_code_clear_neither_makes_nor_drops_a_reloader",
+              "C10_code_reloader_only_when_hot_reloading_started"],
     engines=[("sysdiff", ["--mode", "all"])],
     relevant_classes=["non-reloadable-rewritten"],
     rule=SYS_RULE,
@@ -369,7 +370,7 @@ sys_prop(
     "does not succeed performs no insertion itself, and for a type without nested loads leaves the map exactly as "
     "it was.  Partial: for a Compound whose loader requests its own key, `nothing under its own key` is observed "
     "by the correspondence only (the real code does not terminate there; the fuelled model does).",
-    ["Proofs/SysGrows.v", "Proofs/SysStatic.v", "Proofs/SysMap.v", "Tie/Graph.v", "Tie/Maps.v", "Tie/Records.v", "Props/C02.v"],
+    ["Proofs/SysGrows.v", "Proofs/SysStatic.v", "Proofs/SysMap.v", "Tie/Graph.v", "Tie/Maps.v", "Tie/Records.v", "Tie/Dirs.v", "Props/C02.v"],
     ["Props/C02.vo"],
     ["C02_load_only_adds", "C02_load_owned_adds_nothing_of_its_own", "C02_get_cached_and_contains_add_nothing",
      "C02_load_of_a_present_key_returns_it", "C02_successful_load_is_cached",
@@ -378,8 +379,8 @@ sys_prop(
      "C02_clear_empties", "C02_code_keys_compare_type_and_id", "C02_code_maps_address_the_given_key",
      "C02_code_keys_carry_the_id_as_given", "C02_code_clear_empties_the_whole_map", "C02_code_lookup_before_load",
      "C02_failed_plain_load_adds_nothing", "C02_failed_load_inserts_nothing_itself",
-     "C02_code_add_asset_loads_then_inserts"],
-    ["Private", "Deps", "CacheMap", "LocalMap", "Anycache"], ["handle-changed", "key-type-confusion", "racers-disagree"],
+     "C02_code_add_asset_loads_then_inserts", "C02_code_directory_loads_go_through_the_cache"],
+    ["Private", "Deps", "CacheMap", "LocalMap", "Anycache", "Dirs"], ["handle-changed", "key-type-confusion", "racers-disagree"],
     extra_engines=[("racediff", ["--parts", "reentrant"])])
 
 sys_prop(
